@@ -10,9 +10,10 @@ import (
 
 func init() {
 	register(&Property{ID: "C12", Run: runC12,
-		Explain: "Enumerated crash/stall classes over the code that handles remote input (inventories recomputed on every run; a new site of a listed class needs a discharged obligation): (R12.1) wire-optional nil-safety: every field access through an optional sub-message received from a caller (a pointer-typed pb field reached from a parameter or receiver, or an optional sub-message parameter itself) is dominated by a nil test of the same access path, directly, through a summarised boolean helper, or in every caller; generated Get* methods are nil-safe by construction; (R12.2) fixed-width decodes are length-guarded (shared with C20) and encodes use 8-byte buffers; (R12.3) every slice/index expression with a non-constant bound in the synchronous ingress cone falls into a recognised bounded class (bound tested against len of the same operand, min(len,..), clamp assignment, range key, rand.Intn(len) index, sort callback, length-switch) or is a violation; (R12.4) explicit panics: the verdict switch default is value-unreachable (shared R04.4), push-on-closed is unreachable because every Close of a registered queue is followed by its removal from p.peers and every push takes its queue from p.peers in the same event-loop step (shared R16.4); (R12.5) no single-value type assertion or unguarded integer division on the ingress path; (R12.6) framing: the stream reader is built with maxMessageSize, a read error other than EOF and a decode error reset the stream and return without handing anything to the loop, an RPC is handed over only after a successful Unmarshal; (R12.7) the event loop does not block on remote input: in the synchronous cone of handleIncomingRPC every select has a default arm, every queue push is non-blocking (block=false), bare channel operations are replies, and there is no Sleep/cond.Wait/stream I/O; (R12.8) rand.Intn arguments are positive by construction (loop index + 1) or protected by the IHAVE budget gates (shared C17 B1/B2/B5). NOT decided: panics inside dependencies (protobuf decoder, msgio, libp2p, crypto), allocation size/OOM, arithmetic overflow, user callbacks.",
+		Explain: "Enumerated crash/stall classes over the code that handles remote input (inventories recomputed on every run; a new site of a listed class needs a discharged obligation): (R12.1) wire-optional nil-safety: every field access through an optional sub-message received from a caller (a pointer-typed pb field reached from a parameter or receiver, or an optional sub-message parameter itself) is dominated by a nil test of the same access path, directly, through a summarised boolean helper, or in every caller; generated Get* methods are nil-safe by construction; (R12.2) fixed-width decodes are length-guarded (shared with C20) and encodes use 8-byte buffers; (R12.3) every slice/index expression with a non-constant bound in the synchronous ingress cone falls into a recognised bounded class (bound tested against len of the same operand, min(len,..), clamp assignment, range key, rand.Intn(len) index, sort callback, length-switch) or is a violation; (R12.4) explicit panics: the verdict switch default is value-unreachable (shared R04.4), push-on-closed is unreachable because every Close of a registered queue is followed by its removal from p.peers and every push takes its queue from p.peers in the same event-loop step (shared R16.4); (R12.5) no single-value type assertion or unguarded integer division on the ingress path; (R12.6) framing: the stream reader is built with maxMessageSize, a read error other than EOF and a decode error reset the stream and return without handing anything to the loop, an RPC is handed over only after a successful Unmarshal; (R12.7) the event loop does not block on remote input: in the synchronous cone of handleIncomingRPC every select has a default arm, every queue push is non-blocking (block=false), bare channel operations are replies, and there is no Sleep/cond.Wait/stream I/O; (R12.8) rand.Intn arguments are positive by construction (loop index + 1) or protected by the IHAVE budget gates (shared C17 B1/B2/B5). (R12.9) every element store into the scorer's per-message peer set, which is dropped (nil) once a record's status is final, is behind a test that the status is still unknown or valid. NOT decided: panics inside dependencies (protobuf decoder, msgio, libp2p, crypto), allocation size/OOM, arithmetic overflow, user callbacks.",
 		Assume:  []string{"elements of repeated protobuf fields are non-nil (gogo decoder allocates them)", "generated pb methods are nil-receiver safe"},
 		Mutants: []Mutant{
+			{Name: "deliver-records-before-status-test", File: "score.go", Old: "\t// defensive check that this is the first delivery trace -- delivery status should be unknown\n\tif drec.status != deliveryUnknown {\n\t\tps.logger.Debug(\"unexpected delivery trace\"", New: "\tdrec.peers[msg.ReceivedFrom] = struct{}{}\n\t// defensive check that this is the first delivery trace -- delivery status should be unknown\n\tif drec.status != deliveryUnknown {\n\t\tps.logger.Debug(\"unexpected delivery trace\"", Expect: "R12.9"},
 			{Name: "trace-control-unguarded", File: "trace.go", Old: "\tif rpc.Control != nil {\n\t\tvar ihave []*pb.TraceEvent_ControlIHaveMeta", New: "\tif rpc.Control != nil || len(rpc.Publish) > 0 {\n\t\tvar ihave []*pb.TraceEvent_ControlIHaveMeta", Expect: "R12.1"},
 			{Name: "extensions-helper-weakened", File: "extensions.go", Old: "\tif rpc != nil && rpc.Control != nil && rpc.Control.Extensions != nil {\n\t\treturn true\n\t}\n\treturn false", New: "\tif rpc != nil && (rpc.Control != nil || rpc.Partial != nil) {\n\t\treturn true\n\t}\n\treturn false", Expect: "R12.1"},
 			{Name: "partial-handler-nil-rpc", File: "partialmessages/partialmsgs.go", Old: "\tif rpc == nil {\n\t\treturn nil\n\t}\n\n\ttopic := rpc.GetTopicID()", New: "\ttopic := rpc.GetTopicID()", Expect: "R12.1"},
@@ -560,6 +561,7 @@ func runC12(c *RuleCtx) {
 			}
 		}
 	}
+	checkDeliveryPeersStores(c)
 	c.Min["R12.1"] = 8
 	c.Min["R12.2"] = 5
 	c.Min["R12.3"] = 12
@@ -779,29 +781,51 @@ func sliceClass(p *Prog, f *Func, x *ast.SliceExpr) (string, string) {
 				return true, "dominated by `" + a.Desc + "`"
 			}
 		}
-		// clamp assignment: `if bound > len(y) { bound = len(y) }` preceding, where x is (derived from) y
+		// clamp assignment: `if bound > len(y) { bound = len(y) }` preceding, where x is (derived from) y — on the bound
+		// variable itself or on a local it is a plain copy of (the result variable of a helper that computes it)
 		if id, ok := unparen(b).(*ast.Ident); ok {
-			obj := f.Info().Uses[id]
-			for _, d := range p.R(f).Defs(obj) {
-				if d.kind != "assign" || d.rhs == nil {
-					continue
-				}
-				rv := p.R(f).Val(d.rhs)
-				if rv.Kind == "len" {
-					over := AtomCmp("bound > len", func(v *V) bool { return v.Kind == "var" && v.Obj == obj }, ">", func(v *V) bool { return v.Equal(rv) })
-					if ok, _ := p.DomAny(f, d.node, AtomWant{over, true}); ok {
-						// the clamp lies on every path not refuting bound > len before the slice
-						g := p.Graph(f)
-						sp, _ := g.Locate(x)
-						if g.DominatedByNode(sp, func(n ast.Node) bool {
-							for _, e := range append(g.AtomEdges(over, true), g.AtomEdges(over, false)...) {
-								if condNodeOf(e) == n {
-									return true
+			chain := []types.Object{f.Info().Uses[id]}
+			for i := 0; i < len(chain) && i < 6; i++ {
+				for _, d := range p.R(f).Defs(chain[i]) {
+					if d.kind == "assign" && d.rhs != nil && d.idx < 0 {
+						if rid, ok := unparen(d.rhs).(*ast.Ident); ok {
+							if o, ok := f.Info().Uses[rid].(*types.Var); ok && !o.IsField() {
+								dup := false
+								for _, c := range chain {
+									if c == o {
+										dup = true
+									}
+								}
+								if !dup {
+									chain = append(chain, o)
 								}
 							}
-							return false
-						}) {
-							return true, "bound clamped to a length before use"
+						}
+					}
+				}
+			}
+			for _, obj := range chain {
+				for _, d := range p.R(f).Defs(obj) {
+					if d.kind != "assign" || d.rhs == nil {
+						continue
+					}
+					rv := p.R(f).Val(d.rhs)
+					if rv.Kind == "len" {
+						over := AtomCmp("bound > len", func(v *V) bool { return v.Kind == "var" && v.Obj == obj }, ">", func(v *V) bool { return v.Equal(rv) })
+						if ok, _ := p.DomAny(f, d.node, AtomWant{over, true}); ok {
+							// the clamp lies on every path not refuting bound > len before the slice
+							g := p.Graph(f)
+							sp, _ := g.Locate(x)
+							if g.DominatedByNode(sp, func(n ast.Node) bool {
+								for _, e := range append(g.AtomEdges(over, true), g.AtomEdges(over, false)...) {
+									if condNodeOf(e) == n {
+										return true
+									}
+								}
+								return false
+							}) {
+								return true, "bound clamped to a length before use"
+							}
 						}
 					}
 				}
@@ -888,6 +912,54 @@ func indexClass(p *Prog, f *Func, x *ast.IndexExpr) (string, string) {
 	if iv.Kind == "rangekey" && iv.Args[0].Equal(xv) {
 		return "rangekey", "index is the range key of the operand"
 	}
+	// counting fill: xs := make([]T, len(M)); i := 0; for k := range M { xs[i] = k; i++ } — the index counts the
+	// iterations of a range over M, and the operand was made with len(M) elements
+	if id, ok := unparen(x.Index).(*ast.Ident); ok {
+		if obj, ok := f.Info().Uses[id].(*types.Var); ok && !obj.IsField() {
+			loops := p.EnclosingLoops(x)
+			if len(loops) > 0 {
+				if r, ok := loops[0].(*ast.RangeStmt); ok {
+					mv := p.R(f).Val(r.X)
+					madeWithLen := false
+					if xid, ok := unparen(x.X).(*ast.Ident); ok {
+						for _, d := range p.R(f).Defs(f.Info().Uses[xid]) {
+							if d.kind == "assign" && d.rhs != nil {
+								if ce, ok := unparen(d.rhs).(*ast.CallExpr); ok && len(ce.Args) >= 2 {
+									if fid, ok := ce.Fun.(*ast.Ident); ok && fid.Name == "make" {
+										if lv := p.R(f).Val(ce.Args[1]); lv.Kind == "len" && lv.Args[0].Equal(mv) {
+											madeWithLen = true
+										}
+									}
+								}
+							}
+						}
+					}
+					// the index: defined as 0 outside the loop, and inside it only incremented by one, once, after the use
+					zeroOutside, stepsInside, other := false, 0, false
+					for _, d := range p.R(f).Defs(obj) {
+						inLoop := d.node != nil && within(d.node, r)
+						switch {
+						case !inLoop && d.kind == "assign" && d.rhs != nil && p.R(f).Val(d.rhs).IsConst("0"):
+							zeroOutside = true
+						case inLoop:
+							if inc, ok := d.node.(*ast.IncDecStmt); ok && inc.Tok == token.INC {
+								if len(p.EnclosingLoops(inc)) > 0 && p.EnclosingLoops(inc)[0] == ast.Stmt(r) {
+									stepsInside++
+									continue
+								}
+							}
+							other = true
+						default:
+							other = true
+						}
+					}
+					if madeWithLen && zeroOutside && stepsInside == 1 && !other {
+						return "countfill", "index counts the iterations of a range over M; the operand was made with len(M) elements"
+					}
+				}
+			}
+		}
+	}
 	// rand.Intn(len(x)) / rand.Intn(i+1) with i range key of x
 	if iv.IsCall("math/rand.Intn") && len(iv.Args) == 1 {
 		a := iv.Args[0]
@@ -959,4 +1031,94 @@ func indexClass(p *Prog, f *Func, x *ast.IndexExpr) (string, string) {
 	}
 	_ = token.ADD
 	return "", "index " + iv.String() + " is not related to len(" + xv.String() + ")"
+}
+
+// R12.9 nil-map stores: the scorer drops a delivery record's peer set (`drec.peers = nil`) once the record's status
+// is final (invalid, ignored, throttled); a store into that map panics (assignment to entry in nil map) on the event
+// loop or a validation worker. Every element store into deliveryRecord.peers is reached only where the status is
+// known to be unknown or valid — behind the status test, or inside the matching case of a switch on the status.
+func checkDeliveryPeersStores(c *RuleCtx) {
+	p := c.P
+	// premise: the set is dropped somewhere, and only next to a final status
+	nNil := 0
+	for _, s := range p.StoresTo("deliveryRecord.peers") {
+		if s.Kind == "assign" && s.RHS != nil && isNilV(p.R(s.Fn).Val(s.RHS)) {
+			nNil++
+		}
+	}
+	if nNil == 0 {
+		c.OK("R12.9", "deliveryRecord.peers", "element stores only while the peer set exists", nil, "the peer set is never dropped")
+		return
+	}
+	live := []string{"deliveryUnknown", "deliveryValid"}
+	isStatus := func(v *V) bool { return v.IsField("deliveryRecord.status") }
+	n := 0
+	for _, s := range p.StoresTo("deliveryRecord.peers") {
+		if s.Kind != "elem-assign" {
+			continue
+		}
+		n++
+		f := s.Fn
+		ok, why := false, ""
+		// (a) dominated by an edge that pins the status to a live value
+		var lits []AtomWant
+		for _, l := range live {
+			lits = append(lits, AtomWant{AtomCmp("status == "+l, isStatus, "==", func(v *V) bool { return v.IsConst(l) }), true})
+		}
+		if okd, w := p.DomAny(f, s.Node, lits...); okd {
+			ok, why = true, w
+		}
+		// (b) inside a case clause of a switch on the status whose constants are all live
+		if !ok {
+			for x := p.parents[s.Node]; x != nil && !ok; x = p.parents[x] {
+				cc, isCC := x.(*ast.CaseClause)
+				if !isCC || len(cc.List) == 0 {
+					continue
+				}
+				sw, isSw := p.parents[p.parents[cc]].(*ast.SwitchStmt)
+				if !isSw || sw.Tag == nil || !isStatus(p.R(f).Val(sw.Tag)) {
+					continue
+				}
+				all := true
+				for _, e := range cc.List {
+					if !p.R(f).Val(e).IsConst(live...) {
+						all = false
+					}
+				}
+				if all {
+					ok, why = true, "inside `case "+p.Src(cc.List[0])+"` of the switch on the status"
+				}
+			}
+		}
+		// (c) after the status was set to valid on every path (the record was unknown a moment ago)
+		if !ok {
+			g := p.Graph(f)
+			if pt, located := g.Locate(s.Node); located && g.DominatedByNode(pt, func(nd ast.Node) bool {
+				for _, st := range p.StoresTo2(f, "deliveryRecord.status") {
+					if contains(nd, st.Node) && st.RHS != nil && p.R(f).Val(st.RHS).IsConst("deliveryValid") {
+						return true
+					}
+				}
+				return false
+			}) {
+				// the store of deliveryValid itself must be behind the unknown test
+				ok, why = true, "after status = deliveryValid"
+				for _, st := range p.StoresTo2(f, "deliveryRecord.status") {
+					if st.RHS != nil && p.R(f).Val(st.RHS).IsConst("deliveryValid") {
+						if okd, _ := p.DomAny(f, st.Node, lits[0]); !okd {
+							ok = false
+						}
+					}
+				}
+			}
+		}
+		if why == "" {
+			why = "no status test in front of the store"
+		}
+		c.Check(ok, "R12.9", f.Root().Name, "peer set written only while it exists", s.Node, why, "drec.peers is set to nil once a record's status is final, and this store into it is not behind a test that the status is still unknown or valid: handling a (replayed) message whose record is already final panics with `assignment to entry in nil map`: "+why)
+	}
+	if n < 3 {
+		c.Undecided("R12.9", "deliveryRecord.peers", "element stores", nil, "fewer element stores than known: "+itoa(n))
+	}
+	c.Min["R12.9"] = 3
 }
